@@ -21,10 +21,10 @@ SHARDS = {'quick': 16, 'thorough': 16}
 MIN_NONTRIVIAL = {'quick': 5000, 'thorough': 120000}
 REQUIRED_CLASSES = ['mag:add', 'mag:sub', 'mag:mul', 'mag:truediv', 'mag:pow', 'mag:neg', 'exact-partner-negative', 'exact-partner-left',
                     'both-uncertain-positive', 'both-exact', 'array', 'scalar', 'negative-exponent', 'quantity-conversion',
-                    'quantity-mixed-unit-sum', 'quantity-ops', 'repo-tests-under-contracts']
+                    'quantity-mixed-unit-sum', 'quantity-ops', 'repo-tests-under-contracts', 'value-query-then-reuse', 'sum-evaluated-twice']
 REQUIRED_MONITORS = ['contract:Magnitude._add', 'contract:Magnitude._sub', 'contract:Magnitude._mul', 'contract:Magnitude._truediv',
                      'contract:Magnitude.__pow__', 'contract:Magnitude.__neg__', 'contract:UnitType.convert',
-                     'contract:UnitType.convert:linear-with-uncertainty', 'conversion_scaling_compares', 'mixed_sum_compares',
+                     'contract:UnitType.convert:linear-with-uncertainty', 'conversion_scaling_compares', 'mixed_sum_compares', 'value_query_uncertainty_compares',
                      'repo_tests_contract_evaluations']
 ASSUMPTIONS = ['inputs carry non-negative absolute uncertainties (constructed with abse)',
                'k / uncertain and the power formula are only held to non-negativity of the result',
@@ -196,6 +196,14 @@ def _run(case, ctx):
             u, v, x, e = case['u'], case['v'], case['x'], case['e']
             q = Q(list(x) if isinstance(x, list) else x, u, abse=e)
             rel0 = lst(q.rele())
+            if case['how'] == 'value-then-abse':
+                # a value-in-other-unit query must leave the uncertainty of the quantity as it was
+                classes.append('value-query-then-reuse')
+                q.value(v)
+                ae0 = lst(q.abse())
+                mon['value_query_uncertainty_compares'] = 1
+                if not all(close(o, e, 1e-12) for o in ae0) or not all(close(o, x_, 1e-12) for o, x_ in zip(lst(q.rele()), rel0)):
+                    devs.append(dev('value-query-changes-uncertainty-of-the-quantity', dict(u=u, v=v, x=x, abse=e, after=ae0)))
             q.to(v)
             f = F[u] / F[v]
             mon['conversion_scaling_compares'] = 1
@@ -220,6 +228,12 @@ def _run(case, ctx):
             mon['mixed_sum_compares'] = 1
             exp = case['ea'] + (case['eb'] or 0.0) * F[ub] / F[ua]
             ae = lst(res.abse())
+            # the same expression evaluated a second time on the same operands must carry the same uncertainty
+            classes.append('sum-evaluated-twice')
+            res2 = (a + b) if case['sign'] > 0 else (a - b)
+            ae2 = lst(res2.abse())
+            if ae is not None and (ae2 is None or not all(close(o, p_, 1e-12) for o, p_ in zip(ae, ae2))):
+                devs.append(dev('same-sum-evaluated-twice-gives-different-uncertainty', dict(ua=ua, ub=ub, first=ae, second=ae2)))
             if ae is None or not all(close(o, exp, 1e-9) for o in ae):
                 unscaled = case['ea'] + (case['eb'] or 0.0)
                 devs.append(dev('mixed-unit-sum-uncertainty', dict(ua=ua, ub=ub, ea=case['ea'], eb=case['eb'], observed=ae, expected=exp),
